@@ -42,6 +42,9 @@ CLAIMED = {
     ),
 }
 
+# properties whose fragment-described check has been integrated and verified by me
+ENABLED = set()
+
 NOT_YET = "check not built yet in this session (work in progress; see DESIGN.md section 6)"
 
 
@@ -50,6 +53,10 @@ def main():
     checks = []
     na = []
     for p in props:
+        frag = os.path.join(VERIF, "checks", p.lower() + ".manifest.json")
+        if p not in CLAIMED and os.path.exists(frag) and p in ENABLED:
+            fr = json.load(open(frag))
+            CLAIMED[p] = (fr["technique"], fr["text"], fr["note"], fr.get("design_ref", "DESIGN.md 6/" + p))
         if p in CLAIMED and os.path.exists(os.path.join(VERIF, "checks", p.lower() + ".py")):
             tech, text, note, ref = CLAIMED[p]
             checks.append(
